@@ -483,6 +483,41 @@ func checkC17(c *Ctx) {
 				}
 			}
 		}
+		// a package-level sync.Map is a cache shared by every request (and every route) of the process: what it hands back
+		// must be a function of the key alone, otherwise whichever call filled the entry first decides the answer of the others
+		for _, d := range uf.f.Decls {
+			gd, ok := d.(*ast.GenDecl)
+			if !ok || gd.Tok != token.VAR {
+				continue
+			}
+			for _, sp := range gd.Specs {
+				vs := sp.(*ast.ValueSpec)
+				isSyncMap := vs.Type != nil && strings.TrimPrefix(types.ExprString(vs.Type), "*") == "sync.Map"
+				for _, v := range vs.Values {
+					if strings.Contains(types.ExprString(v), "sync.Map{}") {
+						isSyncMap = true
+					}
+				}
+				if !isSyncMap {
+					continue
+				}
+				for _, nm := range vs.Names {
+					for _, d2 := range uf.f.Decls {
+						fd, ok := d2.(*ast.FuncDecl)
+						if !ok || fd.Body == nil {
+							continue
+						}
+						for _, bad := range cacheValueBeyondKey(fd, nm.Name) {
+							k := fmt.Sprintf("*%s var %s: cached value is a function of the key (%s)", uf.root.Suffix, holeFree(nm.Name), fd.Name.Name)
+							if !seenVar[k] {
+								seenVar[k] = true
+								r.Bad("R17a", k, genPos(uf, bad.pos), "the generated package caches a value in the package-level sync.Map "+nm.Name+" under a key built from "+bad.keyDeps+", but the value also depends on "+bad.extra+": whichever request fills the entry first fixes the value for every other route or request that maps to the same key, so a call's result depends on which calls came before it", nil)
+							}
+						}
+					}
+				}
+			}
+		}
 		for name, pos := range pkgVars {
 			key := fmt.Sprintf("*%s var %s", uf.root.Suffix, holeFree(name))
 			u := uses[name]
@@ -972,6 +1007,30 @@ func checkC17(c *Ctx) {
 			}
 			bad = append(bad, w.How+" at "+ep.GenPos(w.Pos))
 		}
+		// append(shared…, v): with spare capacity (always for shared[:0], the filter-in-place idiom) the element is written
+		// into the backing array every request of the route reads; a three-index slice shared[:n:n] forces a copy
+		ast.Inspect(fd.Body, func(n ast.Node) bool {
+			call, ok := n.(*ast.CallExpr)
+			if !ok || len(call.Args) < 2 {
+				return true
+			}
+			if fid, ok := call.Fun.(*ast.Ident); !ok || fid.Name != "append" {
+				return true
+			} else if _, isB := ep.Info.ObjectOf(fid).(*types.Builtin); !isB {
+				return true
+			}
+			first := ast.Unparen(call.Args[0])
+			if sl, ok := first.(*ast.SliceExpr); ok {
+				if sl.Slice3 {
+					return true
+				}
+				first = ast.Unparen(sl.X)
+			}
+			if id, ok := first.(*ast.Ident); ok && shared[ep.Info.ObjectOf(id)] {
+				bad = append(bad, "append onto "+id.Name+" (shares the backing array of a per-route slice) at "+ep.GenPos(call.Pos()))
+			}
+			return true
+		})
 		r.Check(len(bad) == 0, "R17e", fname+" does not store through its shared slice parameters", ep.GenPos(fd.Pos()),
 			"per-route configuration shared by all requests is mutated while serving a request: "+strings.Join(bad, "; "))
 	}
@@ -1034,4 +1093,126 @@ func c17RouteOwnHeaders(c *Ctx, rid string) {
 	}
 	r.Check(len(bad) == 0 && nRoutes == 4, rid, "four-method service: each BindingMiddleware call follows the assignment of its own method's headers", pos,
 		fmt.Sprintf("Register<Service>Server reuses one methodHeaders variable; for methods CreateItem(headers), GetItem(none), Audit(headers), Stats(none): %s (routes found: %d) — a route without method headers then enforces the required headers of the route registered before it", strings.Join(bad, "; "), nRoutes))
+}
+
+type cacheBad struct {
+	pos             token.Pos
+	keyDeps, extra string
+}
+
+// cacheValueBeyondKey: Store / LoadOrStore / Swap calls on the named package-level sync.Map inside fd whose value depends
+// (through local definitions, to a fixpoint) on a parameter of fd that the key does not depend on. Name-based: the units are
+// parsed, not type-checked.
+func cacheValueBeyondKey(fd *ast.FuncDecl, mapName string) []cacheBad {
+	params := map[string]bool{}
+	if fd.Recv != nil {
+		for _, f := range fd.Recv.List {
+			for _, n := range f.Names {
+				params[n.Name] = true
+			}
+		}
+	}
+	for _, f := range fd.Type.Params.List {
+		for _, n := range f.Names {
+			params[n.Name] = true
+		}
+	}
+	// local name -> expressions it is defined from
+	defs := map[string][]ast.Expr{}
+	ast.Inspect(fd.Body, func(n ast.Node) bool {
+		switch x := n.(type) {
+		case *ast.AssignStmt:
+			for i, l := range x.Lhs {
+				id := rootIdentOf(l)
+				if id == nil || params[id.Name] {
+					continue
+				}
+				if len(x.Rhs) == len(x.Lhs) {
+					defs[id.Name] = append(defs[id.Name], x.Rhs[i])
+				} else if len(x.Rhs) == 1 {
+					defs[id.Name] = append(defs[id.Name], x.Rhs[0])
+				}
+				if ix, ok := ast.Unparen(l).(*ast.IndexExpr); ok {
+					defs[id.Name] = append(defs[id.Name], ix.Index)
+				}
+			}
+		case *ast.RangeStmt:
+			for _, kv := range []ast.Expr{x.Key, x.Value} {
+				if id, ok := kv.(*ast.Ident); ok && id.Name != "_" {
+					defs[id.Name] = append(defs[id.Name], x.X)
+				}
+			}
+		case *ast.ValueSpec:
+			for i, nm := range x.Names {
+				if i < len(x.Values) {
+					defs[nm.Name] = append(defs[nm.Name], x.Values[i])
+				}
+			}
+		}
+		return true
+	})
+	var deps func(e ast.Expr, seen map[string]bool, out map[string]bool)
+	deps = func(e ast.Expr, seen map[string]bool, out map[string]bool) {
+		ast.Inspect(e, func(n ast.Node) bool {
+			if sel, ok := n.(*ast.SelectorExpr); ok {
+				// only the operand of a selector can be a local or parameter
+				deps(sel.X, seen, out)
+				return false
+			}
+			if kv, ok := n.(*ast.KeyValueExpr); ok {
+				deps(kv.Value, seen, out)
+				return false
+			}
+			id, ok := n.(*ast.Ident)
+			if !ok {
+				return true
+			}
+			if params[id.Name] {
+				out[id.Name] = true
+				return true
+			}
+			if seen[id.Name] {
+				return true
+			}
+			seen[id.Name] = true
+			for _, d := range defs[id.Name] {
+				deps(d, seen, out)
+			}
+			return true
+		})
+	}
+	var out []cacheBad
+	ast.Inspect(fd.Body, func(n ast.Node) bool {
+		call, ok := n.(*ast.CallExpr)
+		if !ok || len(call.Args) < 2 {
+			return true
+		}
+		sel, ok := call.Fun.(*ast.SelectorExpr)
+		if !ok {
+			return true
+		}
+		if id, ok := ast.Unparen(sel.X).(*ast.Ident); !ok || id.Name != mapName {
+			return true
+		}
+		switch sel.Sel.Name {
+		case "Store", "LoadOrStore", "Swap":
+		default:
+			return true
+		}
+		kd, vd := map[string]bool{}, map[string]bool{}
+		deps(call.Args[0], map[string]bool{}, kd)
+		deps(call.Args[1], map[string]bool{}, vd)
+		var extra []string
+		for p := range vd {
+			if !kd[p] {
+				extra = append(extra, p)
+			}
+		}
+		extra = sortedKeys(toSet(extra))
+		if len(extra) > 0 {
+			out = append(out, cacheBad{call.Pos(), "{" + strings.Join(sortedKeys(kd), ", ") + "}", strings.Join(extra, ", ")})
+		}
+		return true
+	})
+	return out
 }
